@@ -145,8 +145,31 @@ def sink_configs(tier):
     return cs
 
 
-def sink_random(tier, rnd):
+def sink_local_failures():
+    """sends that fail locally (topic longer than 65535 bytes: encoder error; packet larger than the peer's Maximum
+    Packet Size) with a caller-chosen identifier, followed by a send that uses the same identifier again"""
     runs = []
+    for ver in (3, 5):
+        for role in ("server", "client"):
+            for kind in ("q1", "q2"):
+                for bad in ("topic", "size"):
+                    if bad == "size" and ver == 3:
+                        continue
+                    cfg = dict(role=role, ver=ver, max_send=4, gate_pub=1)
+                    hs = {"rm": 4, "mps": 64} if ver == 5 else None
+                    cmds = [handshake(role, ver, connack=hs, connect=hs)]
+                    first = {"c": "send", "s": 1, "k": kind, "id": 7}
+                    first.update({"topic": "x" * 70000} if bad == "topic" else {"plen": 200})
+                    cmds += [first, {"c": "poll", "s": 1},
+                             {"c": "send", "s": 2, "k": kind, "id": 7}, {"c": "poll", "s": 2},
+                             {"c": "send", "s": 3, "k": "q1", "id": 0}, {"c": "poll", "s": 3},
+                             {"c": "settle"}]
+                    runs.append(dict(cfg=cfg, cmds=cmds, src="local_failure"))
+    return runs
+
+
+def sink_random(tier, rnd):
+    runs = sink_local_failures()
     for _ in range(300 if tier == "quick" else 4000):
         ver = rnd.choice([3, 5])
         role = rnd.choice(["server", "client"])
@@ -317,7 +340,9 @@ def inb_decode_for(params):
     def dec(tokens, _variant):
         ver = params["ver"]
         cfg = ep_cfg(params)
-        cmds = [handshake(params["role"], ver, connect={"rm": 16} if ver == 5 else None)]
+        # variant "rpi0": the client's CONNECT carries Request Problem Information = 0 - reason strings and user
+        # properties may then be left out of acknowledgements, the reason CODE may not change
+        cmds = [handshake(params["role"], ver, connect=dict({"rm": 16}, **({"rpi": 0} if _variant == "rpi0" else {})) if ver == 5 else None)]
         npub = [0]
         vary = params["mrs"] == 0 and params["extra"] == "XNone"
         # variant "code16": a handler that succeeds answers with the success code "no matching
@@ -358,7 +383,7 @@ def inb_configs(tier):
             for name, p in base:
                 p = dict(INB_DEFAULTS, **dict(p, ver=ver, role=role))
                 cs.append((f"v{ver}{role[0]}_{name}", INB_CFG.format(**p), "MC_Endpoint", inb_decode_for(p),
-                           [None, "code16"] if ver == 5 and srv and name in ("pub", "ids") else [None]))
+                           [None, "code16", "rpi0"] if ver == 5 and srv and name in ("pub", "ids") else [None]))
     return cs
 
 
@@ -898,6 +923,10 @@ def c07_scenarios(role, ver):
     # S8 the oldest request was answered, a younger one is still pending: the inline slot of the io dispatcher
     #    is free while its response queue is not empty
     s.append(({}, [pub(q=1, id=1), pub(q=0), {"c": "complete", "j": 0, "o": "ok"}]))
+    # S9 streamed payload half received, read by a task of its own that outlives the handler (clients: the
+    #    publish reaches a `Publish` handler through the topic router, which has no connection-control service)
+    s.append((dict({"task_reader": 1}, **({"router": 1} if role == "client" else {})),
+              [pub(q=1, id=3, plen=12, send=4), {"c": "complete", "j": 0, "o": "ok"}]))
     return s
 
 
@@ -939,7 +968,7 @@ def c07_decode_for(role, ver):
         extra, base = scen[s - 1]
         if i > len(base) or c > len(causes):
             return None, None
-        if s == 2 and i >= 1 and any(x.get("c") == "in" for x in causes[c - 1]):
+        if s in (2, 9) and i >= 1 and any(x.get("c") == "in" for x in causes[c - 1]):
             return None, None      # a packet written inside a half-received payload is payload
         cfg = dict(role=role, ver=ver, gate_pub=1, gate_proto=0, max_qos=2, max_receive=16)
         cfg.update({k: v for k, v in extra.items() if not k.startswith("_")})
